@@ -1016,7 +1016,7 @@ def configs(tier):
         ]
     return [
         dict(name="n1-3:every-map-job", nmin=1, nmax=3, arity=2, jobs=TRAV + ALLMAP + ALLDT + WEAK12, nshards=1, connected=False, workers=3),
-        dict(name="n4:all-tables", nmin=4, nmax=4, arity=2, jobs=TRAV + MAP10 + DT9[:6], nshards=4, connected=False, workers=3),
+        dict(name="n4:all-tables", nmin=4, nmax=4, arity=2, jobs=TRAV + MAP10 + DT9[0:7:3], nshards=4, connected=False, workers=3),
         dict(name="n4:arity3", nmin=4, nmax=4, arity=3, jobs=TRAV + MAP2[:1], nshards=8, connected=False, workers=3),
         # the tree traversals (pre/post/cutoff_post) are exhausted above incl. arity 3; at 5 nodes only the
         # DAG-aware functions are run
